@@ -66,7 +66,8 @@ REQUIRED_PROBES = ["madgwick.Madgwick.updateIMU", "madgwick.Madgwick.updateMARG"
 RULE = ("fault space per filter: every non-empty subset of its sensors x every start 0..11 x every length 1..3 inside a 12-sample window (exhaustive, "
         "coverage.exhaustive_window = true), followed by a recovery tail; plus sampled single bursts of 1..50 samples and repeated bursts in "
         "600-sample histories; histories are slowly rotating consistent trajectories (rates up to 0.3 rad/s, gyro bias up to 0.01 rad/s and noise so that dead reckoning "
-        "drifts); non-trivial = at least one accelerometer or magnetometer row is zeroed")
+        "drifts), plus 0.5-1.5 s outages of every field sensor while the body turns at up to 1.5 rad/s for the filters that dead-reckon (Madgwick, Mahony, AQUA: "
+        "right after the outage they are within the gyro drift, 0.02 rad/s x duration + 2 deg, of the fault-free run); non-trivial = at least one accelerometer or magnetometer row is zeroed")
 ASSUMPTIONS = ["refusal = ValueError raised by the constructor/step; any other exception type is a violation",
                "recovery bound K and tolerance per filter calibrated on the pinned tree (x3 in K, x5 in tolerance)",
                "zeroed gyroscope rows are part of the fault space; filters treat a null rate as 'no new data' and return the previous attitude"]
